@@ -152,6 +152,10 @@ type concGenCfg struct {
 	Puts      bool
 	OnlyMerge bool
 	OneBlock  bool // every transaction stays inside one block
+	Aborts    bool // one transaction in six returns an error after its last step (rolls back)
+	// AbortHeavy: every second transaction rolls back and most steps are inserts - many rollbacks
+	// that release reserved offsets (often of one fill-list word) overlap each other and commits
+	AbortHeavy bool
 }
 
 func genConcStore(t *rapid.T, cfg concGenCfg, task, seq int) Store {
@@ -200,7 +204,7 @@ func genConcProgram(t *rapid.T, init *concInit, cfg concGenCfg) *concProgram {
 					}
 					ownedLeft[task] = append(ownedLeft[task][:i], ownedLeft[task][i+1:]...)
 					spec.Steps = append(spec.Steps, Step{Kind: SDelete, Row: row})
-				case kind == 1 && cfg.Inserts:
+				case (kind == 1 || cfg.AbortHeavy && kind <= 6) && cfg.Inserts:
 					st := Step{Kind: SInsert, Stores: []Store{{Col: ccT, Val: Value{B: uint64(task+1)<<32 | uint64(seq)}}}}
 					if rapid.Bool().Draw(t, "ins-store") {
 						st.Stores = append(st.Stores, genConcStore(t, cfg, task, seq))
@@ -225,6 +229,9 @@ func genConcProgram(t *rapid.T, init *concInit, cfg concGenCfg) *concProgram {
 			if len(spec.Steps) == 0 {
 				spec.Steps = append(spec.Steps, Step{Kind: SUpdate, Row: init.Shared[0], Stores: []Store{{Col: ccA, Merge: true, Val: Value{B: 1}}}})
 				ys = []bool{false}
+			}
+			if cfg.Aborts && rapid.IntRange(0, map[bool]int{false: 5, true: 1}[cfg.AbortHeavy]).Draw(t, "abort") == 0 {
+				spec.FailAt = len(spec.Steps) - 1 // rolled back: nothing of it may apply, be emitted or stay reserved
 			}
 			txns = append(txns, spec)
 			yields = append(yields, ys[:len(spec.Steps)])
@@ -285,9 +292,9 @@ func startConcRun(p *concProgram, capacity int) *concRun {
 						r.S.Yield("body", 0)
 					}
 				})
-				if err != nil {
+				if (err != nil) != (spec.FailAt >= 0) {
 					r.errMu.Lock()
-					r.BodyErr = fmt.Sprintf("task %d txn %d: Query returned %v", ti, k, err)
+					r.BodyErr = fmt.Sprintf("task %d txn %d: Query returned %v for a body that returned error=%v", ti, k, err, spec.FailAt >= 0)
 					r.errMu.Unlock()
 				}
 				r.Res[ti][k] = res
@@ -300,6 +307,9 @@ func startConcRun(p *concProgram, capacity int) *concRun {
 
 // txnBlocks returns the blocks a transaction changed (ascending).
 func txnBlocks(spec TxnSpec, res []StepResult) []uint32 {
+	if spec.FailAt >= 0 {
+		return nil // rolled back
+	}
 	set := map[uint32]bool{}
 	for i, st := range spec.Steps {
 		switch st.Kind {
